@@ -239,11 +239,17 @@ func runC08(c *Ctx) {
 		})
 		var watcher *ssa.Function
 		var watcherMC *ssa.MakeClosure
+		var watcherGo *ssa.Go
 		instrs(sres, func(in ssa.Instruction) {
 			if g, ok := in.(*ssa.Go); ok {
 				if mc, ok := g.Call.Value.(*ssa.MakeClosure); ok {
 					watcher = mc.Fn.(*ssa.Function)
 					watcherMC = mc
+					watcherGo = g
+				} else if fn := staticCallee(&g.Call); fn != nil && len(fn.Blocks) > 0 {
+					// the watcher written as a named function: go watch(t, done, …)
+					watcher = fn
+					watcherGo = g
 				}
 			}
 		})
@@ -253,7 +259,11 @@ func runC08(c *Ctx) {
 			e := &PPA{Watch: func(ev *Ev) bool {
 				return strings.HasPrefix(ev.Label, "select:") || strings.HasPrefix(ev.Label, "send:")
 			}}
-			e.RunClosure(watcherMC)
+			if watcherMC != nil {
+				e.RunClosure(watcherMC)
+			} else {
+				e.Run(watcher)
+			}
 			c.Paths += len(e.Paths)
 			for i := range e.Paths {
 				p := &e.Paths[i]
@@ -285,7 +295,19 @@ func runC08(c *Ctx) {
 			}
 			// the timer bound into the watcher is the same value stored in resp.t
 			same := false
-			for _, b := range watcherMC.Bindings {
+			if watcherMC == nil && watcherGo != nil {
+				// named watcher: the timer is one of its arguments
+				for _, a := range watcherGo.Call.Args {
+					if a == timerVal || sameOrigin(a, timerVal) {
+						same = true
+					}
+				}
+			}
+			var binds []ssa.Value
+			if watcherMC != nil {
+				binds = watcherMC.Bindings
+			}
+			for _, b := range binds {
 				if b == timerVal {
 					same = true
 				}
